@@ -515,7 +515,7 @@ class HistoryWorld:
         if root is None:
             return None
         ec = sut.meta[ri]['ec']
-        if op.get('bad'):
+        if op.get('bad') and op.get('bad') not in ('cardinality', 'datatype_override', 'delete_required'):
             return 'lost'
         before = {n.uid for n in root.all_nodes()}
 
@@ -571,6 +571,8 @@ class HistoryWorld:
                 new = EM.node_from_text(t, key, op['text'], corpus._ec(0) if op.get('via') in ('inst', 'parent_attr') else ec)
             else:
                 new = EM.Node(t, key)
+            if op.get('datatype'):
+                new.tag = {'datatype': op['datatype']}
             EM.op_add(parent, new)
             return done()
         if k == 'del':
@@ -676,6 +678,15 @@ class HistoryWorld:
             if s.alive:
                 self.check_c10(s, -1, {'k': 'init'})
                 self.check_c09(s, -1, {'k': 'init'}, 0)
+                s.clean_start = None
+                s.wrote_invalid = False
+                if self.case.get('mix') == 'c04' and s.meta[0]['kind'] in ('msg', 'seg'):
+                    try:
+                        r = s.roots[0].validate(return_errors=True)
+                        s.clean_start = not r.errors
+                        self.probe('c04_clean_start' if s.clean_start else 'c04_unclean_start')
+                    except Exception:
+                        s.clean_start = None
 
     def step(self, op, step):
         results = []
@@ -710,6 +721,8 @@ class HistoryWorld:
                         s.models[ri_] = None     # a non-atomic rejection: the model cannot know what is left
             else:
                 self.probe('op_accepted')
+                if op.get('bad') and op['bad'] not in ('cardinality', 'delete_absent', 'delete_required'):
+                    s.wrote_invalid = True
                 if read_like:
                     self.check_c11_read(s, step, op, before, after, ret)
                 delta = self.model_apply(s, op)
